@@ -185,6 +185,14 @@ class StmtMixin:
             self.mutate(tgt.value, base, new, env)
             return
         if isinstance(tgt, (ast.Tuple, ast.List)):
+            if isinstance(val.ty, TList) and not any(isinstance(t, ast.Starred) for t in tgt.elts):
+                # unpacking a LIST into n targets (added for C16, h0 `method, path = data.split(b" ", 1)`): Python raises
+                # ValueError ("not enough / too many values to unpack") unless the list has exactly n elements
+                n = len(tgt.elts)
+                self.fail(sym.list_len(val) == n, "ValueError", "unpack: the list does not have exactly %d elements" % n, tgt)
+                for i, t in enumerate(tgt.elts):
+                    self.assign(t, V(val.ty.elem, z3.Select(sym.list_arr(val), I(i))), env)
+                return
             if not isinstance(val.ty, TTuple):
                 raise Unsupported("unpacking %s" % val.ty)
             if len(val.ty.items) != len(tgt.elts):
